@@ -1,4 +1,5 @@
 import YatimlModel.Driver.LoadWire
+import YatimlModel.Spec.AliasShape
 import YatimlModel.Gen.LoaderResolvers
 /-! Driver commands `recognize`, `process`, `load`. -/
 namespace YatimlModel.Driver
@@ -90,6 +91,19 @@ def cmdLoadDoc : List Sexp → String
                                          | .ok _ => "construct" | .error _ => "process")
                         | .error _ => "expand"))
     | _, _, _ => "bad-args"
+  | _ => "bad-args"
+
+/-- `docshape <doc>`: the syntactic shape of a composed document — self-referential? well-scoped? — and
+whether alias expansion yields a tree, a cycle error or an undefined-anchor error -/
+def cmdDocShape : List Sexp → String
+  | [doc] =>
+    match toDoc doc with
+    | some d =>
+      "selfref=" ++ (if C18.selfRef [] d then "1" else "0") ++
+      " scoped=" ++ (if (C18.scopedDoc [] [] d).isSome then "1" else "0") ++
+      " expand=" ++ (match expandDoc [] [] d with
+                     | .ok _ => "tree" | .error (.cycle _) => "cycle" | .error .undefined => "undefined")
+    | none => "bad-args"
   | _ => "bad-args"
 
 end YatimlModel.Driver
